@@ -104,13 +104,25 @@ func oracle(stream, in, outp string) {
 				continue
 			}
 			p, _ := strconv.ParseUint(f[3], 10, 32)
+			ns := wire.Dec(f[1])
+			// the statement covers endpoints whose namespace the client's sidecar scope keeps
+			kept := ns == wire.Dec(f[6]) || ns == s.root
+			for _, n := range wire.DecList(f[7]) {
+				kept = kept || n == ns
+			}
+			if !kept {
+				continue
+			}
 			if f[5] == "nil" && f[4] == "1" {
-				want := effectiveMode(s.pas, s.root, wire.Dec(f[1]), parseLabels(f[2]), uint32(p)) != "DISABLE"
-				if (res == "1") != want {
+				want := effectiveMode(s.pas, s.root, ns, parseLabels(f[2]), uint32(p)) != "DISABLE"
+				if (strings.Fields(res)[0] == "1") != want {
 					fail("client-agrees", "checkMtlsEnabled", fmt.Sprintf("real %s spec-not-disable %v", res, want))
 				}
 			}
-		case "il":
+			if got, want := field(res, "BE"), effectiveMode(s.pas, s.root, ns, nil, 0); got != want {
+				fail("namespace-mode", "BestEffortInferServiceMTLSMode-on-sidecar-scope-view", fmt.Sprintf("real %s spec %s", got, want))
+			}
+		case "il", "ils":
 			res := s.apply(f)
 			if res == "crash" || res == "bad-op" || res == "no-virtual-inbound" {
 				fail("never-crashes", "crash", strings.Join(f, " ")+" -> "+res)
